@@ -785,4 +785,13 @@ theorem run_cached (ops : List Op) (db : DB) (h : Cached db) (ok : ∀ op ∈ op
     show absv (run (step db op) t) = mrun (mstep (absv db) op) t
     rw [h4, h2]
 
+theorem run_eager (ops : List Op) (db : DB) (h : Cached db) (ok : ∀ op ∈ ops, OpOK db.eager op) :
+    (run db ops).eager = db.eager := by
+  induction ops generalizing db with
+  | nil => rfl
+  | cons op t ih =>
+    obtain ⟨h1, _⟩ := step_cached db op h (ok op List.mem_cons_self)
+    have he := step_eager db op h (ok op List.mem_cons_self)
+    exact (ih (step db op) h1 (fun o ho => by rw [he]; exact ok o (List.mem_cons_of_mem _ ho))).trans he
+
 end GocoinV.Proofs.C19
